@@ -8,6 +8,7 @@ import PsdVerif.Model.PayloadSimple
 import PsdVerif.Model.PayloadEffects
 import PsdVerif.Model.PayloadPatterns
 import PsdVerif.Model.PayloadLinked
+import PsdVerif.Model.PayloadDescWrap
 import PsdVerif.Model.DescriptorTables
 import PsdVerif.Lemmas.Descriptor3
 
@@ -188,5 +189,14 @@ def linkedAll : List LinkedLayer :=
 def linkedAliasData : LinkedLayer := { linkedAlias1 with data := some [1, 2, 3] }
 def linkedExt1Data : LinkedLayer := { linkedExt 1 with data := some [1, 2, 3] }
 def linkedChildV4 : LinkedLayer := { linkedExt 4 with childId := some [120] }
+
+/-! ### unit 6 -/
+
+def smartObject : SmartObjectLayerData := ⟨[115, 111, 76, 68], 5, blk⟩
+def placedLayer : PlacedLayerData :=
+  ⟨[112, 108, 99, 76], 3, uuid, 1, 1, 16, 2, [4607182418800017408, 0, 0, 4607182418800017408, 0, 9223372036854775808, 1, 18446744073709551615],
+   Descriptor.Samples.block2⟩
+def typeTool : TypeToolObjectSetting :=
+  ⟨1, [4607182418800017408, 0, 0, 4607182418800017408, 4638707616191610880, 0], 50, blk, 1, blk, 0, -5, 2147483647, -2147483648⟩
 
 end PsdVerif.Payload.Samples
